@@ -26,6 +26,18 @@ pub trait FsBackend {
     fn flush(&mut self, handle: u64) -> io::Result<()>;
     /// Closes the handle. Called when the [`File`] is dropped.
     fn close(&mut self, handle: u64);
+    /// Makes the data (and metadata, if `metadata` is set) durable.
+    fn sync(&mut self, _handle: u64, _metadata: bool) -> io::Result<()> {
+        Ok(())
+    }
+    /// Truncates or extends the file.
+    fn set_len(&mut self, _handle: u64, _len: u64) -> io::Result<()> {
+        Err(io::Error::new(io::ErrorKind::Unsupported, "verif_io: set_len is not supported by this backend"))
+    }
+    /// Returns the length of the file.
+    fn len(&mut self, _handle: u64) -> io::Result<u64> {
+        Err(io::Error::new(io::ErrorKind::Unsupported, "verif_io: len is not supported by this backend"))
+    }
 }
 
 thread_local! {
@@ -70,6 +82,10 @@ pub struct OpenOptions {
     pub create: bool,
     /// Truncate an existing file.
     pub truncate: bool,
+    /// Append to the file.
+    pub append: bool,
+    /// Fail if the file exists.
+    pub create_new: bool,
 }
 
 impl OpenOptions {
@@ -98,6 +114,16 @@ impl OpenOptions {
         self.truncate = value; self
     }
 
+    /// See [`std::fs::OpenOptions::append`].
+    pub fn append(&mut self, value: bool) -> &mut Self {
+        self.append = value; self
+    }
+
+    /// See [`std::fs::OpenOptions::create_new`].
+    pub fn create_new(&mut self, value: bool) -> &mut Self {
+        self.create_new = value; self
+    }
+
     /// See [`std::fs::OpenOptions::open`].
     pub fn open<P: AsRef<Path>>(&self, path: P) -> io::Result<File> {
         match with_backend(|b| b.open(path.as_ref(), self)) {
@@ -105,6 +131,8 @@ impl OpenOptions {
             None => {
                 let mut options = std::fs::OpenOptions::new();
                 options.read(self.read).write(self.write).create(self.create).truncate(self.truncate);
+                if self.append { options.append(true); }
+                if self.create_new { options.create_new(true); }
                 options.open(path).map(|file| File { inner: Inner::Real(file) })
             },
         }
@@ -123,6 +151,40 @@ enum Inner {
 #[derive(Debug)]
 pub struct File {
     inner: Inner,
+}
+
+impl File {
+    /// See [`std::fs::File::sync_all`].
+    pub fn sync_all(&self) -> io::Result<()> {
+        match &self.inner {
+            Inner::Real(file) => file.sync_all(),
+            Inner::Backend(handle) => with_backend(|b| b.sync(*handle, true)).unwrap_or_else(|| Err(no_backend())),
+        }
+    }
+
+    /// See [`std::fs::File::sync_data`].
+    pub fn sync_data(&self) -> io::Result<()> {
+        match &self.inner {
+            Inner::Real(file) => file.sync_data(),
+            Inner::Backend(handle) => with_backend(|b| b.sync(*handle, false)).unwrap_or_else(|| Err(no_backend())),
+        }
+    }
+
+    /// See [`std::fs::File::set_len`].
+    pub fn set_len(&self, size: u64) -> io::Result<()> {
+        match &self.inner {
+            Inner::Real(file) => file.set_len(size),
+            Inner::Backend(handle) => with_backend(|b| b.set_len(*handle, size)).unwrap_or_else(|| Err(no_backend())),
+        }
+    }
+
+    /// Returns the length of the file (stands in for `metadata()?.len()`).
+    pub fn len(&self) -> io::Result<u64> {
+        match &self.inner {
+            Inner::Real(file) => file.metadata().map(|m| m.len()),
+            Inner::Backend(handle) => with_backend(|b| b.len(*handle)).unwrap_or_else(|| Err(no_backend())),
+        }
+    }
 }
 
 fn no_backend() -> io::Error {
@@ -214,9 +276,9 @@ fn log_map_call(call: MapCall) {
     });
 }
 
-/// The subset of `libc` used by `MemoryMap`, with wrapped `mmap()` and `munmap()`.
+/// Everything in `libc`, with wrapped `mmap()` and `munmap()` (explicit items shadow the glob import).
 pub mod sys {
-    pub use libc::{c_int, c_void, off_t, size_t, MAP_FAILED, MAP_SHARED, PROT_READ, PROT_WRITE};
+    pub use libc::*;
 
     use super::{log_map_call, MapCall, MAP_FAIL};
 
